@@ -44,6 +44,9 @@ func c05Drivers() []concParams {
 		{Name: "snapshot-preempted-by-compaction", Cfg: "flushy/bytewise", Pre: []string{"put:a", "put:b", "q"}, Clients: [][]string{{"snapget:a,b,a"}, {"put:a", "cr"}}, QB: 1, TB: 2, SQ: 1, ST: 1},
 		{Name: "write-preempted-by-writer", Cfg: "roomy/bytewise", Clients: [][]string{{"put:a", "get:a"}, {"put:a", "w:+a,+b"}}, QB: 2, TB: 3, SQ: 1, ST: 2},
 		{Name: "get-preempted-by-transaction", Cfg: "bigbatch/bytewise", Pre: []string{"put:a"}, Clients: [][]string{{"get:a", "get:b"}, {"tr:+a,+b"}}, QB: 2, TB: 3, SQ: 1, ST: 1},
+		// two readers sharing a one-block cache and the buffer pool (filter and data blocks evicted
+		// and their buffers reused while the other reader is still looking at them)
+		{Name: "readers-share-tiny-cache", Cfg: "tinybloom/bytewise", Pre: []string{"put:a", "put:b", "put:c", "cr", "q"}, Clients: [][]string{{"get:a", "get:c"}, {"get:b", "get:a", "get:c"}}, QB: 2, TB: 3, SQ: 1, ST: 2},
 		{Name: "bigbatch-vs-reader", Cfg: "bigbatch/bytewise", Pre: []string{"put:a", "put:b"}, Clients: [][]string{{"w:+a,+b,-a,+a"}, {"snapget:a,b"}}, QB: 2, TB: 3},
 	}
 }
